@@ -19,6 +19,7 @@ type PathResult struct {
 	Msg       string
 	Decisions []int32
 	Siblings  [][]int32
+	SibModels []map[string]uint64
 	Asserts   []assertRec
 	Reached   []string
 	Steps     int64
@@ -87,13 +88,37 @@ func (ex *Exec) resetPath(prefix []int32) {
 	ex.lastPanic = ""
 	ex.inInit = 0
 	ex.prov = map[*term.T]provRec{}
+	ex.sigs = ex.sigs[:0]
+	ex.sibModels = nil
+	ex.model = nil
 }
 
 // RunPath executes the entry function along the given decision prefix.
-func (ex *Exec) RunPath(entry *ssa.Function, entryName string, prefix []int32, wantSample bool) (res PathResult) {
+func (ex *Exec) RunPath(entry *ssa.Function, entryName string, prefix []int32, startModel map[string]uint64, wantSample bool) (res PathResult) {
 	ex.resetPath(prefix)
+	ex.startModel = startModel
 	ex.entryName = entryName
-	ex.sol.Push()
+	// keep the solver scopes of the decisions this path shares with the previous one
+	c := 0
+	if ex.prevValid && !ex.noReuse {
+		for c < len(ex.prevDecs) && c < len(prefix) && ex.prevDecs[c] == prefix[c] {
+			c++
+		}
+		if c >= len(ex.prevDecs) {
+			c = len(ex.prevDecs) - 1
+		}
+	}
+	if ex.prevValid && !ex.noReuse && c >= 0 && len(ex.prevDecs) > 0 && ex.sol.Depth() >= c+1 {
+		ex.sol.PopTo(c + 1)
+		ex.common = c
+		ex.live = false
+	} else {
+		ex.sol.PopTo(0)
+		ex.sol.Push()
+		ex.common = 0
+		ex.live = true
+	}
+	ex.prevValid = false
 	defer func() {
 		if r := recover(); r != nil {
 			switch a := r.(type) {
@@ -106,18 +131,26 @@ func (ex *Exec) RunPath(entry *ssa.Function, entryName string, prefix []int32, w
 			case goBlocked:
 				res.Outcome, res.Msg = "blocked", a.what
 			default:
-				ex.sol.PopTo(0)
+				ex.prevValid = false
 				panic(r)
 			}
 		} else {
 			res.Outcome = "ok"
 		}
-		if res.Outcome == "ok" && wantSample {
+		if res.Outcome == "ok" && wantSample && ex.live {
 			res.Sample = ex.sample()
 		}
-		ex.sol.PopTo(0)
+		if res.Outcome == "realign" || res.Outcome == "engine" {
+			ex.sol.PopTo(0)
+		} else {
+			ex.sol.PopTo(len(ex.decisions) + 1)
+			ex.prevDecs = append(ex.prevDecs[:0], ex.decisions...)
+			ex.prevSigs = append(ex.prevSigs[:0], ex.sigs...)
+			ex.prevValid = ex.live || len(ex.decisions) <= ex.common
+		}
 		res.Decisions = ex.decisions
 		res.Siblings = ex.siblings
+		res.SibModels = ex.sibModels
 		res.Asserts = ex.asserts
 		for l := range ex.reached {
 			res.Reached = append(res.Reached, l)
@@ -200,6 +233,14 @@ func (ex *Exec) sample() *Sample {
 // assert discharges one obligation on the current path.
 func (ex *Exec) assert(c *term.T, id string) {
 	tb := ex.tb
+	if len(ex.decisions) < len(ex.prefix) {
+		// this obligation was discharged (or reported) by the path that produced the prefix
+		if c.IsFalse() {
+			panic(pathAbort{"stop", "assertion constant-false"})
+		}
+		ex.addPC(c)
+		return
+	}
 	if c.IsTrue() {
 		ex.asserts = append(ex.asserts, assertRec{ID: id, Status: "trivial"})
 		return
